@@ -109,7 +109,7 @@ pub fn defuse_hex_literal(text: &str) -> Option<String> {
 }
 
 /// CPU-time budget for one input (in-worker watchdog, independent of machine load)
-pub const CPU_BUDGET_MS: u64 = 5000;
+pub const CPU_BUDGET_MS: u64 = 10_000;
 
 pub fn overflow_sig(phase: &str, construct: &str) -> String {
     format!("abort.stack_overflow.{}.{}", phase, construct)
@@ -474,13 +474,13 @@ impl Check for C23 {
         vec![
             "parse_sql is called on the worker process' main thread with the OS default stack (RLIMIT_STACK 8 MiB); a stack overflow is detected by a SIGSEGV handler on an alternate stack and reported as abort.stack_overflow.<phase>.<construct> (phase = parse | drop of the returned AST)".into(),
             "build profile `verif` (opt-level 2, debug assertions and overflow checks on): stack frames are larger than in a plain release build, so thresholds are lower bounds for release".into(),
-            "watchdog: 5 s of CPU time per input inside the worker (ITIMER_PROF => hang.cpu.*), plus vcore's wall-clock watchdog (30 s, confirmed twice with 60 s => hang)".into(),
+            "watchdog: 10 s of main-thread CPU time per input inside the worker (ITIMER_PROF + thread CPU clock => hang.cpu.*), plus vcore's wall-clock watchdog (60 s, confirmed twice with 120 s => hang)".into(),
         ]
     }
     fn cases(&self, tier: Tier) -> u64 {
         match tier {
             Tier::Quick => 150_000,
-            Tier::Thorough => 5_000_000,
+            Tier::Thorough => 1_500_000, // ~9 min on 14 workers, plus <= 10 min libFuzzer (prepare)
         }
     }
     fn tape_len(&self, _t: Tier) -> usize {
@@ -490,7 +490,7 @@ impl Check for C23 {
         true
     }
     fn timeout_s(&self) -> u64 {
-        30
+        60
     }
     fn floors(&self) -> Vec<(&'static str, f64)> {
         vec![("parsed", 0.05), ("rejected", 0.30), ("src:mutated", 0.25), ("nontrivial", 0.15)]
@@ -655,7 +655,11 @@ impl Check for C23 {
             }
             Err(desc) => {
                 obs.nontrivial = true;
-                Verdict::fail(format!("parse.{}", psig(&desc)), format!("Parser::parse_sql panicked: {}\ninput ({} bytes): {:?}", desc, case.text.len(), vcore::runner::truncate(&case.text, 2000)))
+                let v = Verdict::fail(format!("parse.{}", psig(&desc)), format!("Parser::parse_sql panicked: {}\ninput ({} bytes): {:?}", desc, case.text.len(), vcore::runner::truncate(&case.text, 2000)));
+                if segv::installed() {
+                    crate::log_unknown_failure("C23", &v, case);
+                }
+                v
             }
         }
     }
